@@ -111,6 +111,42 @@ func (r *Run) Table(name string, o *Oblig) bool {
 	return false
 }
 
+// TableKey discharges o with the table line stored under another key (a line
+// that covers a class of constructs, e.g. every call of one function).
+func (r *Run) TableKey(name string, o *Oblig, key string) bool {
+	t := r.loadTable(name)
+	if reason, ok := t[key]; ok {
+		o.Status = "table:" + reason
+		r.tableUsed(name, key)
+		return true
+	}
+	return false
+}
+
+// MovedLine returns the key of a table line that records the same construct
+// (same rule, package and construct text) under a function where it no longer
+// exists (its own key is not among the current keys), or "". Exactly one such
+// line must exist.
+func (r *Run) MovedLine(name, fullKey string, current map[string]bool) string {
+	sig, ok := moveSignature(fullKey)
+	if !ok {
+		return ""
+	}
+	found := ""
+	for k := range r.loadTable(name) {
+		if k == fullKey || current[k] {
+			continue
+		}
+		if s2, ok := moveSignature(k); ok && s2 == sig {
+			if found != "" {
+				return ""
+			}
+			found = k
+		}
+	}
+	return found
+}
+
 // InTable reports whether the table has a line for the full key, without
 // discharging anything (used where a listed site changes what else is owed).
 func (r *Run) InTable(name, fullKey string) bool {
@@ -176,7 +212,9 @@ func (r *Run) Tick(label string) {
 	r.Analysed["t_ms_"+label] = int(time.Since(r.Start).Milliseconds())
 }
 
-func (r *Run) Note(format string, args ...any) { r.Notes = append(r.Notes, fmt.Sprintf(format, args...)) }
+func (r *Run) Note(format string, args ...any) {
+	r.Notes = append(r.Notes, fmt.Sprintf(format, args...))
+}
 func (r *Run) Assumef(format string, args ...any) {
 	r.Assume = append(r.Assume, fmt.Sprintf(format, args...))
 }
@@ -206,6 +244,45 @@ func (r *Run) Finish(out string) int {
 	for _, f := range r.floors {
 		if n := r.Count(f.rule); n < f.min {
 			r.Fatal("vacuity guard: rule %s enumerated %d obligations, floor is %d (%s)", f.rule, n, f.min, f.what)
+		}
+	}
+	// A construct that moved to another function of the same package (helper
+	// extracted, function renamed or split) keeps its recorded reason: an open
+	// obligation is paired with an unused table line of the same rule, package
+	// and construct text when the pairing is unique in both directions.
+	for name, t := range r.tables {
+		type cand struct{ key, reason string }
+		unused := map[string][]cand{} // rule|pkg|what -> lines
+		for k, reason := range t {
+			if usedTableKeys[name][k] {
+				continue
+			}
+			if sig, ok := moveSignature(k); ok {
+				unused[sig] = append(unused[sig], cand{k, reason})
+			}
+		}
+		open := map[string][]*Oblig{}
+		for _, o := range r.Obligs {
+			if o.Open() {
+				if sig, ok := moveSignature(o.Key); ok {
+					open[sig] = append(open[sig], o)
+				}
+			}
+		}
+		for sig, os := range open {
+			cs := unused[sig]
+			if len(os) == 0 || len(os) != len(cs) {
+				continue // only a complete, unambiguous move is followed
+			}
+			sort.Slice(os, func(i, j int) bool { return os[i].Key < os[j].Key })
+			sort.Slice(cs, func(i, j int) bool { return cs[i].key < cs[j].key })
+			for i := range os {
+				c := cs[i]
+				os[i].Status = "table:" + c.reason + " [construct moved: recorded under " + keyFunc(c.key) + "]"
+				os[i].Why = ""
+				r.tableUsed(name, c.key)
+				r.Note("table %s: the line for %q was applied to the same construct now found in %s", name, c.key, keyFunc(os[i].Key))
+			}
 		}
 	}
 	// stale table lines are reported as notes (not failures): the construct may
@@ -276,6 +353,36 @@ func (r *Run) Finish(out string) int {
 	return 0
 }
 
+// moveSignature: rule | package of the function | construct text, for keys of
+// the form "rule | function | what".
+func moveSignature(key string) (string, bool) {
+	parts := strings.SplitN(key, " | ", 3)
+	if len(parts) != 3 {
+		return "", false
+	}
+	fn := strings.TrimLeft(parts[1], "(*")
+	// package path: up to the first '.' after the last '/'
+	slash := strings.LastIndex(fn, "/")
+	dot := strings.Index(fn[slash+1:], ".")
+	if dot < 0 {
+		return "", false
+	}
+	pkg := fn[:slash+1+dot]
+	what := parts[2]
+	if i := strings.LastIndex(what, " #"); i >= 0 && i > len(what)-5 {
+		what = what[:i]
+	}
+	return parts[0] + " | " + pkg + " | " + what, true
+}
+
+func keyFunc(key string) string {
+	parts := strings.SplitN(key, " | ", 3)
+	if len(parts) >= 2 {
+		return parts[1]
+	}
+	return key
+}
+
 func keyBelongs(k string, r *Run) bool {
 	// a table may be shared between properties; only note staleness for
 	// lines whose rule was enumerated by this run at all
@@ -330,7 +437,7 @@ func (r *Run) writeEvidence(out string, violations, known, discharged int) {
 	}
 	distinct := len(r.byKey)
 	cov := map[string]any{
-		"explanation": fmt.Sprintf("static analysis of /repo's working tree: %d obligations enumerated from the type-checked source by %d rules; each is discharged by a fact recomputed on this run (auto), a frozen single-key exception with a reason (table), or is a listed known finding; anything else is a violation. This decides the structural clauses named under 'rules', not the behavioural law itself.", len(r.Obligs), len(r.Rules)),
+		"explanation":         fmt.Sprintf("static analysis of /repo's working tree: %d obligations enumerated from the type-checked source by %d rules; each is discharged by a fact recomputed on this run (auto), a frozen single-key exception with a reason (table), or is a listed known finding; anything else is a violation. This decides the structural clauses named under 'rules', not the behavioural law itself.", len(r.Obligs), len(r.Rules)),
 		"obligations":         len(r.Obligs),
 		"discharged":          discharged,
 		"known_findings":      known,
